@@ -25,6 +25,7 @@ const (
 	kindAppend     = 2
 	kindRoots      = 3
 	kindAccount    = 5 // account-paid RPCs: read, verify, write a sector (4 is the law check of the runner)
+	kindFund       = 6 // RPCFundAccounts: the other RPC that revises the contract (roots must stay)
 
 	scriptComplete       = 0
 	scriptCloseAfterReq  = 1 // request written, stream closed, response never read
@@ -32,9 +33,24 @@ const (
 	scriptBadSignature   = 3
 	scriptCloseAfterSig  = 4 // valid signature written, stream closed, host signature never read
 	scriptHalfRequest    = 5 // RPC id and half of the request written, stream closed
+	scriptHalfSignature  = 6 // half of the signature message written, stream closed
+	scriptInterleaved    = 7 // complete; between first response and signature attempt Other runs on its own stream
+
+	// what is wrong with the request before the handler looks at its content
+	preNone            = 0
+	preUnknownContract = 1
+	preBadChallenge    = 2
+	preTamperedPrices  = 3
+
+	// price tables (all signed by the host)
+	pricesNormal       = 0
+	pricesZero         = 1 // every price 0: revisions that move no funds
+	pricesUnaffordable = 2 // one freed sector / one stored sector / one listed root costs more than the contract holds
 )
 
-var kindNames = []string{"free-client", "free-raw", "append", "roots", "law", "account"}
+var kindNames = []string{"free-client", "free-raw", "append", "roots", "law", "account", "fund"}
+var preNames = []string{"", "unknown-contract", "bad-challenge", "tampered-prices"}
+var priceNames = []string{"", "zero-prices", "unaffordable-prices"}
 
 // variants of an account-paid attempt
 const (
@@ -49,7 +65,7 @@ const (
 )
 
 var acctVariantNames = []string{"valid", "unknown-root", "bad-range", "expired-token", "forged-token", "wrong-host-token", "unfunded-account", "truncated-data"}
-var scriptNames = []string{"complete", "close-after-request", "close-after-first-response", "bad-signature", "close-after-signature", "half-request"}
+var scriptNames = []string{"complete", "close-after-request", "close-after-first-response", "bad-signature", "close-after-signature", "half-request", "half-signature", "interleaved"}
 
 // attempt is the abstract description of one RPC attempt (also the replay format).
 // Sector roots are pool numbers; numbers >= unknownBase name roots the host does not store.
@@ -65,6 +81,9 @@ type attempt struct {
 	Op      string   `json:"op,omitempty"`  // account: read | verify | write
 	Variant int      `json:"variant,omitempty"`
 	Root    int      `json:"root,omitempty"` // account: pool number or unknown number
+	Pre     int      `json:"precondition,omitempty"`
+	Prices  int      `json:"prices,omitempty"`
+	Other   *attempt `json:"other,omitempty"` // script interleaved: runs on another stream while this handler waits
 }
 
 const unknownBase = 1000
@@ -84,6 +103,17 @@ func (a attempt) String() string {
 		if a.Raw {
 			s += "raw"
 		}
+	case kindFund:
+		s += fmt.Sprintf("[%d H]", a.Len)
+	}
+	if a.Pre != 0 {
+		s += "/" + preNames[a.Pre]
+	}
+	if a.Prices != 0 {
+		s += "/" + priceNames[a.Prices]
+	}
+	if a.Other != nil {
+		s += "/while-waiting:" + a.Other.String()
 	}
 	return s
 }
@@ -96,9 +126,10 @@ type observed struct {
 	gotResp   bool            // the first response was read
 	proofLen  int             // roots on the raw stream: number of hashes in the proof (-1: not observed)
 	result    *types.V2FileContract
-	panicked  string // a call into the code under test panicked on the renter side
-	served    bool   // account: the renter got the service it paid for
-	data      []byte // account read: the bytes returned
+	panicked  string    // a call into the code under test panicked on the renter side
+	served    bool      // account: the renter got the service it paid for
+	data      []byte    // account read: the bytes returned
+	other     *observed // script interleaved: what the attempt on the other stream saw
 }
 
 func (e *env) unknownRoot(n int) types.Hash256 {
@@ -148,6 +179,15 @@ func (e *env) run(a attempt, before snap) (ob observed) {
 		return e.runAccount(a)
 	}
 	return e.runContract(a, before)
+}
+
+// fundAmount: the deposit of a funding attempt (under the unaffordable "price table" it is
+// one hasting more than the renter output holds).
+func (e *env) fundAmount(a attempt, before snap) types.Currency {
+	if a.Prices == pricesUnaffordable {
+		return before.rev.RenterOutput.Value.Add(types.NewCurrency64(1))
+	}
+	return types.NewCurrency64(a.Len)
 }
 
 // accountCost is what the attempt must cost when it is served.
@@ -243,7 +283,11 @@ func (e *env) runAccount(a attempt) (ob observed) {
 			return fail(err)
 		}
 		if a.Variant == acctTruncatedData {
-			s.Write(data[:len(data)/2])
+			n := int(a.Off) // bytes of the announced data that do arrive
+			if n >= len(data) {
+				n = len(data) / 2
+			}
+			s.Write(data[:n])
 			closeAndForget(s)
 			return ob
 		}
@@ -257,31 +301,51 @@ func (e *env) runAccount(a attempt) (ob observed) {
 	}
 }
 
-// runContract performs a free / append / listing attempt; the renter's view of the
-// contract is the host's current revision (before).
+// runContract performs a free / append / listing / funding attempt; the renter's view of the
+// contract is the revision in view (the host's current one, or the renter's own record in a
+// blind stretch).
 func (e *env) runContract(a attempt, before snap) (ob observed) {
 	ctx := context.Background()
-	rev := rhp4.ContractRevision{ID: e.cid, Revision: before.rev}
 	ob.proofLen = -1
+	prices := e.priceTables[a.Prices]
+	cid := e.cid
+	switch a.Pre {
+	case preTamperedPrices: // the host's signature no longer covers the table
+		prices.FreeSectorPrice = prices.FreeSectorPrice.Add(types.NewCurrency64(1))
+		prices.StoragePrice = prices.StoragePrice.Add(types.NewCurrency64(1))
+		prices.EgressPrice = prices.EgressPrice.Add(types.NewCurrency64(1))
+	case preUnknownContract:
+		if a.BadSig >= 0 { // BadSig < 0: the current contract is itself not revisable
+			cid = types.FileContractID{0xde, 0xad, byte(a.BadSig)}
+		}
+	}
+	rev := rhp4.ContractRevision{ID: cid, Revision: before.rev}
+	challenge := func(h types.Hash256) types.Signature {
+		if a.Pre == preBadChallenge {
+			h[3] ^= 0x10
+		}
+		return e.renterKey.SignHash(h)
+	}
 	fail := func(err error) observed {
 		if err != nil {
 			ob.clientErr = err.Error()
 		}
 		return ob
 	}
+	viaClient := a.Script == scriptComplete && a.Pre == preNone
 	switch {
-	case a.Kind == kindFreeClient && a.Script == scriptComplete:
-		res, err := rhp4.RPCFreeSectors(ctx, e.tc, e.renterKey, e.cs, e.prices, rev, a.Idx)
+	case a.Kind == kindFreeClient && viaClient:
+		res, err := rhp4.RPCFreeSectors(ctx, e.tc, e.renterKey, e.cs, prices, rev, a.Idx)
 		if err == nil {
 			ob.result = &res.Revision
 		}
 		return fail(err)
-	case a.Kind == kindAppend && a.Script == scriptComplete:
+	case a.Kind == kindAppend && viaClient:
 		roots := make([]types.Hash256, len(a.Sectors))
 		for i, n := range a.Sectors {
 			roots[i] = e.sectorRoot(n)
 		}
-		res, err := rhp4.RPCAppendSectors(ctx, e.tc, e.renterKey, e.cs, e.prices, rev, roots)
+		res, err := rhp4.RPCAppendSectors(ctx, e.tc, e.renterKey, e.cs, prices, rev, roots)
 		if err == nil {
 			ob.result = &res.Revision
 			// reconstruct the accepted flags from the accepted roots (in order)
@@ -296,11 +360,18 @@ func (e *env) runContract(a attempt, before snap) (ob observed) {
 			}
 		}
 		return fail(err)
-	case a.Kind == kindRoots && a.Script == scriptComplete && !a.Raw:
-		res, err := rhp4.RPCSectorRoots(ctx, e.tc, e.cs, e.prices, e.renterKey, rev, a.Off, a.Len)
+	case a.Kind == kindRoots && viaClient && !a.Raw:
+		res, err := rhp4.RPCSectorRoots(ctx, e.tc, e.cs, prices, e.renterKey, rev, a.Off, a.Len)
 		if err == nil {
 			ob.result = &res.Revision
 			ob.listed = res.Roots
+			ob.gotResp = true
+		}
+		return fail(err)
+	case a.Kind == kindFund && viaClient && !a.Raw:
+		res, err := rhp4.RPCFundAccounts(ctx, e.tc, e.cs, e.renterKey, rev, []proto4.AccountDeposit{{Account: e.account, Amount: e.fundAmount(a, before)}})
+		if err == nil {
+			ob.result = &res.Revision
 			ob.gotResp = true
 		}
 		return fail(err)
@@ -331,15 +402,65 @@ func (e *env) runContract(a attempt, before snap) (ob observed) {
 		}
 		return false
 	}
+	// second round of free and append: what the renter does once it has the new root.
+	// revise returns the revision the renter would sign (error: the contract cannot pay).
+	finish := func(revise func() (types.V2FileContract, error), second func(types.Signature) proto4.Object, third interface {
+		proto4.Object
+	}, hostSig func() types.Signature) {
+		if a.Script == scriptCloseAfterResp {
+			closeAndForget(s)
+			return
+		}
+		if a.Script == scriptInterleaved && a.Other != nil {
+			o := e.run(*a.Other, before) // on its own stream, while this handler waits
+			ob.other = &o
+		}
+		revision, err := revise()
+		if err != nil {
+			// the renter cannot sign; a zero signature drives the host into its own payment check
+			proto4.WriteResponse(s, second(types.Signature{}))
+			if err2 := proto4.ReadResponse(s, third); err2 != nil {
+				err = err2
+			}
+			ob.clientErr = err.Error()
+			return
+		}
+		sigHash := e.cs.ContractSigHash(revision)
+		sig := e.renterKey.SignHash(sigHash)
+		if a.Script == scriptBadSignature {
+			sig = e.badSignature(a.BadSig, sig, sigHash, before.rev)
+		}
+		if a.Script == scriptHalfSignature {
+			var buf bytes.Buffer
+			proto4.WriteResponse(&buf, second(sig))
+			s.Write(buf.Bytes()[:buf.Len()/2])
+			closeAndForget(s)
+			return
+		}
+		if err := proto4.WriteResponse(s, second(sig)); err != nil {
+			ob.clientErr = err.Error()
+			return
+		}
+		if a.Script == scriptCloseAfterSig {
+			closeAndForget(s)
+			return
+		}
+		if err := proto4.ReadResponse(s, third); err != nil {
+			ob.clientErr = err.Error()
+			return
+		}
+		revision.RenterSignature, revision.HostSignature = sig, hostSig()
+		ob.result = &revision
+	}
 	switch a.Kind {
 	case kindFreeClient, kindFreeRaw:
 		idx := slices.Clone(a.Idx)
-		if a.Kind == kindFreeClient { // what rpc.go:596-600 does
+		if a.Kind == kindFreeClient { // what rpc.go does: sort descending, drop duplicates
 			sort.Slice(idx, func(i, j int) bool { return idx[i] > idx[j] })
 			idx = slices.Compact(idx)
 		}
-		req := proto4.RPCFreeSectorsRequest{ContractID: e.cid, Prices: e.prices, Indices: idx}
-		req.ChallengeSignature = e.renterKey.SignHash(req.ChallengeSigHash(before.rev.RevisionNumber + 1))
+		req := proto4.RPCFreeSectorsRequest{ContractID: cid, Prices: prices, Indices: idx}
+		req.ChallengeSignature = challenge(req.ChallengeSigHash(before.rev.RevisionNumber + 1))
 		if writeReq(proto4.RPCFreeSectorsID, &req) {
 			return
 		}
@@ -348,39 +469,20 @@ func (e *env) runContract(a attempt, before snap) (ob observed) {
 			return fail(err)
 		}
 		ob.gotResp = true
-		if a.Script == scriptCloseAfterResp {
-			closeAndForget(s)
-			return
-		}
-		revision, _, err := proto4.ReviseForFreeSectors(before.rev, e.prices, resp.NewMerkleRoot, len(idx))
-		if err != nil {
-			return fail(err)
-		}
-		sigHash := e.cs.ContractSigHash(revision)
-		sig := e.renterKey.SignHash(sigHash)
-		if a.Script == scriptBadSignature {
-			sig = e.badSignature(a.BadSig, sig, sigHash, before.rev)
-		}
-		if err := proto4.WriteResponse(s, &proto4.RPCFreeSectorsSecondResponse{RenterSignature: sig}); err != nil {
-			return fail(err)
-		}
-		if a.Script == scriptCloseAfterSig {
-			closeAndForget(s)
-			return
-		}
 		var third proto4.RPCFreeSectorsThirdResponse
-		if err := proto4.ReadResponse(s, &third); err != nil {
-			return fail(err)
-		}
-		revision.RenterSignature, revision.HostSignature = sig, third.HostSignature
-		ob.result = &revision
+		finish(func() (types.V2FileContract, error) {
+			r, _, err := proto4.ReviseForFreeSectors(before.rev, prices, resp.NewMerkleRoot, len(idx))
+			return r, err
+		}, func(sig types.Signature) proto4.Object {
+			return &proto4.RPCFreeSectorsSecondResponse{RenterSignature: sig}
+		}, &third, func() types.Signature { return third.HostSignature })
 	case kindAppend:
 		roots := make([]types.Hash256, len(a.Sectors))
 		for i, n := range a.Sectors {
 			roots[i] = e.sectorRoot(n)
 		}
-		req := proto4.RPCAppendSectorsRequest{Prices: e.prices, Sectors: roots, ContractID: e.cid}
-		req.ChallengeSignature = e.renterKey.SignHash(req.ChallengeSigHash(before.rev.RevisionNumber + 1))
+		req := proto4.RPCAppendSectorsRequest{Prices: prices, Sectors: roots, ContractID: cid}
+		req.ChallengeSignature = challenge(req.ChallengeSigHash(before.rev.RevisionNumber + 1))
 		if writeReq(proto4.RPCAppendSectorsID, &req) {
 			return
 		}
@@ -389,49 +491,31 @@ func (e *env) runContract(a attempt, before snap) (ob observed) {
 			return fail(err)
 		}
 		ob.gotResp, ob.accepted = true, resp.Accepted
-		if a.Script == scriptCloseAfterResp {
-			closeAndForget(s)
-			return
-		}
 		var n uint64
 		for _, ok := range resp.Accepted {
 			if ok {
 				n++
 			}
 		}
-		revision, _, err := proto4.ReviseForAppendSectors(before.rev, e.prices, resp.NewMerkleRoot, n)
-		if err != nil {
-			return fail(err)
-		}
-		sigHash := e.cs.ContractSigHash(revision)
-		sig := e.renterKey.SignHash(sigHash)
-		if a.Script == scriptBadSignature {
-			sig = e.badSignature(a.BadSig, sig, sigHash, before.rev)
-		}
-		if err := proto4.WriteResponse(s, &proto4.RPCAppendSectorsSecondResponse{RenterSignature: sig}); err != nil {
-			return fail(err)
-		}
-		if a.Script == scriptCloseAfterSig {
-			closeAndForget(s)
-			return
-		}
 		var third proto4.RPCAppendSectorsThirdResponse
-		if err := proto4.ReadResponse(s, &third); err != nil {
-			return fail(err)
+		finish(func() (types.V2FileContract, error) {
+			r, _, err := proto4.ReviseForAppendSectors(before.rev, prices, resp.NewMerkleRoot, n)
+			return r, err
+		}, func(sig types.Signature) proto4.Object {
+			return &proto4.RPCAppendSectorsSecondResponse{RenterSignature: sig}
+		}, &third, func() types.Signature { return third.HostSignature })
+	case kindRoots: // single round: only the invalid and truncated variants differ from the client
+		revision, _, err := proto4.ReviseForSectorRoots(before.rev, prices, a.Len)
+		var sigHash types.Hash256
+		var sig types.Signature
+		if err == nil {
+			sigHash = e.cs.ContractSigHash(revision)
+			sig = e.renterKey.SignHash(sigHash)
+			if a.Script == scriptBadSignature {
+				sig = e.badSignature(a.BadSig, sig, sigHash, before.rev)
+			}
 		}
-		revision.RenterSignature, revision.HostSignature = sig, third.HostSignature
-		ob.result = &revision
-	case kindRoots: // single round: only the bad-signature and truncated variants differ from the client
-		revision, _, err := proto4.ReviseForSectorRoots(before.rev, e.prices, a.Len)
-		if err != nil {
-			return fail(err)
-		}
-		sigHash := e.cs.ContractSigHash(revision)
-		sig := e.renterKey.SignHash(sigHash)
-		if a.Script == scriptBadSignature {
-			sig = e.badSignature(a.BadSig, sig, sigHash, before.rev)
-		}
-		req := proto4.RPCSectorRootsRequest{Prices: e.prices, ContractID: e.cid, Offset: a.Off, Length: a.Len, RenterSignature: sig}
+		req := proto4.RPCSectorRootsRequest{Prices: prices, ContractID: cid, Offset: a.Off, Length: a.Len, RenterSignature: sig}
 		if writeReq(proto4.RPCSectorRootsID, &req) {
 			return
 		}
@@ -440,10 +524,32 @@ func (e *env) runContract(a attempt, before snap) (ob observed) {
 			return fail(err)
 		}
 		ob.gotResp, ob.listed, ob.proofLen = true, resp.Roots, len(resp.Proof)
-		if a.Script != scriptBadSignature && a.Off+a.Len <= uint64(len(before.roots)) && a.Len > 0 && uint64(len(resp.Roots)) == a.Len &&
+		if a.Script != scriptBadSignature && a.Off+a.Len <= uint64(len(before.roots)) && a.Off+a.Len >= a.Off && a.Len > 0 && uint64(len(resp.Roots)) == a.Len &&
 			!proto4.VerifySectorRootsProof(resp.Proof, resp.Roots, uint64(len(before.roots)), a.Off, a.Off+a.Len, before.rev.FileMerkleRoot) {
 			ob.clientErr = "sector roots proof does not verify"
 		}
+		revision.RenterSignature, revision.HostSignature = sig, resp.HostSignature
+		ob.result = &revision
+	case kindFund: // single round
+		amount := e.fundAmount(a, before)
+		revision, _, err := proto4.ReviseForFundAccounts(before.rev, amount)
+		var sig types.Signature
+		if err == nil {
+			sigHash := e.cs.ContractSigHash(revision)
+			sig = e.renterKey.SignHash(sigHash)
+			if a.Script == scriptBadSignature {
+				sig = e.badSignature(a.BadSig, sig, sigHash, before.rev)
+			}
+		}
+		req := proto4.RPCFundAccountsRequest{ContractID: cid, Deposits: []proto4.AccountDeposit{{Account: e.account, Amount: amount}}, RenterSignature: sig}
+		if writeReq(proto4.RPCFundAccountsID, &req) {
+			return
+		}
+		var resp proto4.RPCFundAccountsResponse
+		if err := proto4.ReadResponse(s, &resp); err != nil {
+			return fail(err)
+		}
+		ob.gotResp = true
 		revision.RenterSignature, revision.HostSignature = sig, resp.HostSignature
 		ob.result = &revision
 	}
